@@ -75,7 +75,7 @@ def _random_table(rng, ng, nm, ns):
         cells = []
         for _ in range(ng * nm):
             r = rng.random()
-            cells.append("" if r < 0.2 else "nan" if r < 0.3 else "inf" if r < 0.37 else "-inf" if r < 0.4 else repr(rng.choice([2.5e-05, 3e+16, -1.25e-07, 1e22, 7.0])) if r < 0.5 else repr(round(rng.uniform(-2, 5), 3)))
+            cells.append("" if r < 0.2 else rng.choice(["nan", "nan", "NaN", "-nan"]) if r < 0.3 else rng.choice(["inf", "inf", "Infinity", "+inf", "1e999"]) if r < 0.37 else rng.choice(["-inf", "-Infinity", "-1e999"]) if r < 0.4 else repr(rng.choice([2.5e-05, 3e+16, -1.25e-07, 1e22, 7.0])) if r < 0.5 else repr(round(rng.uniform(-2, 5), 3)))
         rows.append((f"subj{s}", cells))
     return groups, metrics, rows
 
@@ -124,6 +124,48 @@ def bounded(params):
             bad = [f"raised {type(e).__name__}: {e}"[:160]]
         if bad and len(failures) < 5:
             failures.append({"input": {"groups": ["g"], "metrics": ["ma", "mb"], "rows": rows}, "problems": bad[:3], "replay_kind": "c20.e2e"})
+    fr = frame({})
+    evals += 1
+    for pb in fr["problems"][:2]:
+        failures.append({"input": {"case": "read-only queries"}, "problems": [pb], "replay_kind": "c20.frame"})
     return {"evaluations": evals, "distinct_nontrivial": nontriv, "failures": failures,
             "rule": "seeded random tables (1-3 groups, 1-3 metrics, 1-7 subjects, cells missing/nan/inf/finite) written as .tsv and loaded with from_file; get/summary/per-subject/across-groups compared with directly computed statistics; non-trivial = at least one finite value",
             "bound": "<= 3x3x7 tables; quick 60"}
+
+
+def frame(params):
+    """queries are read-only: every answer is the same before and after any other query (incl. get_across_groups, summaries, printing)"""
+    import io, contextlib
+    from panoptica.panoptica_statistics import Panoptica_Statistic
+    bad = []
+    groups, metrics = ["ga", "gb", "gc"], ["m1", "m2"]
+    rows = [("s0", ["3.0", "1.0", "0.5", "", "9.0", "2.0"]), ("s1", ["1.0", "", "0.25", "4.0", "7.0", "nan"]), ("s2", ["2.0", "5.0", "0.75", "6.0", "8.0", "1.5"])]
+    with tempfile.TemporaryDirectory() as d:
+        p = os.path.join(d, "t.tsv")
+        _write(p, groups, metrics, rows)
+
+        def snapshot(st):
+            return {"get": {(g, m, rn): list(st.get(g, m, remove_nones=rn)) for g in groups for m in metrics for rn in (False, True)},
+                    "one": {s: st.get_one_subject(s) for s in ("s0", "s1", "s2")}}
+        queries = {
+            "get_across_groups": lambda st: [st.get_across_groups(m) for m in metrics],
+            "get_summary": lambda st: [st.get_summary(g, m) for g in groups for m in metrics],
+            "get_summary_dict": lambda st: st.get_summary_dict(),
+            "get_summary_across_groups": lambda st: st.get_summary_across_groups(),
+            "print_summary": lambda st: st.print_summary(),
+        }
+        for qn, q in queries.items():
+            st = Panoptica_Statistic.from_file(p)
+            before = snapshot(st)
+            try:
+                with contextlib.redirect_stdout(io.StringIO()):
+                    q(st)
+                    q(st)
+            except Exception as e:
+                bad.append(f"{qn} raised {type(e).__name__}: {e}"[:160])
+                continue
+            after = snapshot(st)
+            if repr(after) != repr(before):
+                diff = [k for k in before["get"] if repr(before["get"][k]) != repr(after["get"][k])] + [k for k in before["one"] if repr(before["one"][k]) != repr(after["one"][k])]
+                bad.append(f"after {qn}() the stored table answers differently for {diff[:3]}: e.g. {repr(after['get'].get(diff[0], after['one'].get(diff[0])))[:120]}")
+    return {"violated": bool(bad), "problems": bad[:4]}
